@@ -127,6 +127,26 @@ theorem piApi_eq_pi_phi {σ : Type} (T : Tables σ) {B : ℕ} (hT : TablesOK T B
     have : x.toNat = 0 := by omega
     rw [this]; rfl
 
+/-- `PhiExec` from the per-call hypotheses for the real tables: in the dispatcher's range `√n ≤ 10^4 ≤ 30719`, so `pix_upper(√n)` is the
+    exact table and the only fact needed about the double formula `f` is at `n` itself -/
+theorem phiExec_realTop (gen : PrimeGen) (hg : PrimeGenSpec gen) (threads : ℕ → ℕ → ℤ) (f : ℕ → ℕ) (piFn prime : ℕ → ℕ → ℕ → ℕ)
+    (order : ℕ → ℕ → List ℕ) (sched : ℕ → ℕ → ℕ → PhiCacheL1 × ℕ) (n : ℕ)
+    (hf : ∀ a, a ≤ π (Nat.sqrt n) → π n ≤ f n ∨ a < f n)
+    (hp0 : ∀ a, prime n a 0 = 0) (hp : ∀ a i, 1 ≤ i → i ≤ a → prime n a i = Spec.p i)
+    (horder : ∀ a, (order n a).Perm (List.range' 9 (a - 8)))
+    (hcache : ∀ a i, 9 ≤ i → i ≤ a → CacheOK (sched n a i)) :
+    PhiExec (fun x a => realTop gen (threads x a) f (piFn x a) (prime x a) (Nat.sqrt x)) order sched n := by
+  have l2 : meisselMax = 100000000 := rfl
+  have l1 : legendreMax = 100000 := rfl
+  have key : ∀ a, n ≤ meisselMax → a ≤ π (Nat.sqrt n) →
+      CallRunOK (realTop gen (threads n a) f (piFn n a) (prime n a) (Nat.sqrt n)) (order n a) (sched n a) n a := by
+    intro a hn ha
+    have hs : Nat.sqrt n ≤ 30719 := sqrt_le_maxCached (by omega)
+    exact { top := callOK_realTop gen hg _ f _ _ n a ha (fun _ => hf a ha) (fun h => by omega) (hp0 a) (hp a)
+            order := horder a, cache := hcache a }
+  exact { legendre := fun _ h => key _ (by omega) le_rfl, meissel := fun _ h => key _ h (pi_iroot3_le_pi_sqrt n) }
+
+
 /-! ### instances (used by the non-vacuity examples of the property files) -/
 
 /-- tables of spec values -/
